@@ -120,13 +120,15 @@ fn run(deps: DepsMut, env: &Env, script: &Script, ev: &mut Ev) -> StdResult<Resp
                 ev.failed = true;
                 return Err(StdError::generic_err(msg.clone()));
             }
-            Step::Attr { k, v } => resp = resp.add_attribute(k.clone(), v.clone()),
+            // attributes are pushed as plain structs: cosmwasm-std's builder helpers panic on reserved
+            // keys in debug builds, and malformed responses are exactly what C13 needs to produce
+            Step::Attr { k, v } => resp.attributes.push(cosmwasm_std::Attribute { key: k.clone(), value: v.clone() }),
             Step::Event { ty, attrs } => {
                 let mut e = Event::new(ty.clone());
                 for (k, v) in attrs {
-                    e = e.add_attribute(k.clone(), v.clone());
+                    e.attributes.push(cosmwasm_std::Attribute { key: k.clone(), value: v.clone() });
                 }
-                resp = resp.add_event(e);
+                resp.events.push(e);
             }
             Step::Data { data } => resp.data = data.clone(),
             Step::Sub { msg, reply_on, id, on_reply } => {
